@@ -89,6 +89,7 @@ pub fn algebra<K: Kind>(ev: &mut Ev, seed: u64, exhaustive: bool, per_len: usize
         fail!("zero", "zero() = {:?}", z);
     }
     for (e, p) in eps.iter().zip(&ps) {
+        beat("check/algebra unary");
         ev.evaluations += 1;
         // the encoding itself
         let d = K::dec(p);
@@ -137,6 +138,9 @@ pub fn algebra<K: Kind>(ev: &mut Ev, seed: u64, exhaustive: bool, per_len: usize
     let all = total <= max_pairs;
     let count = if all { total } else { max_pairs };
     for t in 0..count {
+        if t % 4096 == 0 {
+            beat("check/algebra pairs");
+        }
         let (i, j) = if all { ((t / n as u64) as usize, (t % n as u64) as usize) } else { (rng.below(n), rng.below(n)) };
         let (a, b) = (eps[i], eps[j]);
         let (pa, pb) = (&ps[i], &ps[j]);
